@@ -23,9 +23,9 @@ CHECKS = {
           "TTNO.todense vs Kronecker sum vs chain MPO vs permuted children.",
           LEAN_TB + "Contraction semantics of a tree is proved in an abstract R-algebra (autoTree_eq_expand, accepted_tree_contracts); numeric node tensors and the identification of that algebra with the dense tensor product are validated by the oracle. tn imports only with the print_tree shim.",
           "Lean 4 proof of a sound tree-certificate checker; certificates validated on real output", "§6 C02, §10.2"),
- "C03": P("Lean: dense amplitudes of add / sub / scale / conj / dot / inner / apply for dimension-indexed chains over any commutative ring, any length and dimensions; amplitudes are "
+ "C03": P("Lean: dense amplitudes of add / sub / scale / conj / dot / inner / distance / apply for dimension-indexed chains over any commutative ring, any length and dimensions; amplitudes are "
           "invariant under every re-gauging (Steps), so the statements hold in any gauge and after canonicalise/compress. Exact replay: integer QN-consistent chains with different "
-          "centres through the real operations and through the Lean definitions give identical tensors. Dense oracle over random gauge histories.",
+          "centres through the real operations and through the Lean definitions give identical tensors (and `distance` = rounded root of the model's exact integer). Dense oracle over random gauge histories.",
           LEAN_TB + "Operator-on-operator and density-operator products are covered by the dense oracle only.",
           "Lean 4 proof (Mathlib matrices, structural induction over chains) + exact replay correspondence", "§6 C03, §10.2"),
  "C04": P("Lean: any finite sequence of two-site re-factorisations preserves every amplitude; QR/RQ pushes, lossless SVD updates and operator norm balancing are such steps under the "
@@ -36,7 +36,8 @@ CHECKS = {
           "Lean 4 proof under kernel contracts + contract checks on recorded kernel calls", "§6 C04, §10.2"),
  "C05": P("Lean: kept-count logic of CompressConfig (threshold/fixed/both, left/right bond index), prefix property of the threshold rule, at least one state kept, kept+discarded=total, "
           "Frobenius identity for U D V^H (single-cut error = discarded weight, norm never grows); nested orthogonal projections: the squared error of a whole sweep is EXACTLY the sum of "
-          "the locally discarded weights (Props/C05Nested), checked as an equality on real compress sweeps. Exact replay of compute_m_trunc on dyadic spectra. Dense-SVD oracle for limits, norm, "
+          "the locally discarded weights (Props/C05Nested), checked as an equality on real compress sweeps; keeping the first m values of a non-negative descending spectrum, and of the globally sorted "
+          "block spectra of svd_qn, discards the least possible weight (Props/C05Optimal; hypotheses checked on every truncating _update_ms). Exact replay of compute_m_trunc on dyadic spectra. Dense-SVD oracle for limits, norm, "
           "root-sum-square upper bound and Eckart-Young lower bound on chains and trees.",
           LEAN_TB + "That the locally discarded weights are bounded by the ORIGINAL state's at the same bond (interlacing) and the Eckart-Young lower bound are measured, not proved (partial).",
           "Lean 4 proof of the count logic and single-cut identity + exact replay", "§6 C05, §10.2"),
@@ -50,7 +51,8 @@ CHECKS = {
           LEAN_TB + "Matrix.__hash__ assumed injective on the inputs. Entropies are float formulas (partial). Contraction = dense value is c03_dot.",
           "Lean 4 proof of the cache logic for all operator lists + exact replay of cache decisions", "§6 C07, §10.2"),
  "C08": P("Partial: the variational inequality (compression never lowers the spectrum; nested; Rayleigh form; (H-w)^2 >= 0) is a Lean theorem under the isometry hypothesis, which is checked on the "
-          "real optimiser's output together with energy = Rayleigh quotient. Energies vs exact diagonalisation per sector, roots 1..4, omega targeting, 1-/2-site, solvers, OFS: dense oracle.",
+          "real optimiser's output together with energy = Rayleigh quotient; a normalised eigenpair (e, x) of the effective Hamiltonian gives lam <= e, psi = P x normalised and <psi|H|psi> = e "
+          "(reported_energy_variational), (H-w)^2 maps an eigenvalue mu to (mu-w)^2. Energies vs exact diagonalisation per sector, roots 1..4, omega targeting, 1-/2-site, solvers, OFS: dense oracle.",
           LEAN_TB + "Convergence at full bond dimension, interlacing for higher roots, Davidson: numerical.",
           "Lean 4 partial proof (variational bound) + hypothesis check + dense-oracle search", "§6 C08, §10.2", "other"),
  "C09": P("Partial: one explicit RK step = polynomial in the generator for every tableau and every linear generator (rk_step_poly) with coefficients 1/k! up to the advertised order (generated facts); "
